@@ -159,7 +159,7 @@ def _probe(schema, doc):
 
 
 THOROUGH_OPS = ("is_valid", "decode-lax", "iter_errors-partial", "decode-max_depth2")
-THOROUGH_DOCS = [1, 3, 5, 6, 8, 10, 11, 12, 13]
+THOROUGH_DOCS = [1, 3, 5, 8, 10, 12]          # six documents: 216 histories per obligation (nine did not finish within the time-out)
 
 
 def _docs():
